@@ -453,6 +453,10 @@ func (c *config) Clear() {
 	config.backends = c.backends
 	config.backends.Clear()
 
+	// copying acme storages, so certificates which are not declared anymore
+	// can be removed from the work queue when a full reconciliation happens
+	config.acmeData = c.acmeData.ClearStorages()
+
 	*c = *config
 }
 
